@@ -21,7 +21,7 @@ def need(fx, fid):
 def run(ctx):
     fx = ctx.facts("default")
     order.use_facts(fx)
-    fixtures.run(ctx, ['order', 'taint', 'trunc', 'arithmul', 'dropwrite'])
+    fixtures.run(ctx, ['order', 'taint', 'trunc', 'arithmul', 'dropwrite', 'varint'])
     R = "R-ORDER"
     f = need(fx, MV + "resize_to_capacity")
     ctx.analysed_fns.add(f.id)
@@ -98,6 +98,8 @@ def run(ctx):
                 nt += trunc.check(ctx, Fn(fx.raw(fid)))
     ctx.instance("R-TRUNC.decoders", nt)
     ctx.floor("R-TRUNC.decoders", 2)
+    trunc.writer_threshold(ctx, fx, ['src/blob_store/reorder_map.rs'])
+    ctx.floor('R-VARINT.threshold.writers', 1)
     return dict(
         level_note="decides ordering/durability structure, the open-time size comparison and unchecked use of header "
                    "fields; which earlier sync point a torn file reopens to and content equality after reopen are "
